@@ -1109,6 +1109,7 @@ impl BytecodeVM {
                     delegated_iterator: None,
                     is_async: false,
                     throw_value: None,
+                    return_value: None,
                 };
 
                 let gen_obj = super::builtins::generator::create_bytecode_generator_object(
@@ -1146,6 +1147,7 @@ impl BytecodeVM {
                     delegated_iterator: None,
                     is_async: true, // Async generator
                     throw_value: None,
+                    return_value: None,
                 };
 
                 let gen_obj = super::builtins::generator::create_bytecode_generator_object(
@@ -2160,6 +2162,30 @@ impl BytecodeVM {
             self.exception_value = Some(guarded);
             false
         }
+    }
+
+    /// Perform `return value` at the point where a suspended generator frame is being resumed
+    /// (generator.return()). Returns true when a finally block of that frame has to run first:
+    /// the VM is then positioned on it with the return pending. False: nothing to run.
+    pub fn inject_return(&mut self, interp: &mut Interpreter, value: JsValue) -> bool {
+        let current_frame_depth = self.call_stack.len();
+        let Some(handler_idx) = self
+            .try_stack
+            .iter()
+            .rposition(|h| h.frame_depth == current_frame_depth && h.finally_ip != 0)
+        else {
+            return false;
+        };
+        let Some(handler) = self.try_stack.get(handler_idx).cloned() else {
+            return false;
+        };
+        self.pending_completion = Some(PendingCompletion::Return(Guarded::from_value(
+            value,
+            &interp.heap,
+        )));
+        self.try_stack.truncate(handler_idx);
+        self.ip = handler.finally_ip;
+        true
     }
 
     /// Throw `exception` at the point where a suspended frame is being resumed (error answer to
